@@ -98,7 +98,7 @@ struct rec { char fn[64]; uint32_t line, tags; uint8_t prio; char text[600]; lon
  * one can be compared exactly instead of against the harness' own clock readings */
 static struct timespec cap_ts; static int cap_seen;
 static void caplogger(int32_t t, struct qb_log_callsite *cs, struct timespec *ts, const char *msg) { (void)t; (void)cs; (void)msg; cap_ts = *ts; cap_seen = 1; }
-static long n_ts_exact, n_ts_unjudged;
+static long n_ts_exact, n_ts_unjudged, n_empty_msgs;
 #define MAXREC 6000
 static struct rec R[MAXREC]; static int nR;
 static const char *PRIO[] = { "emerg", "alert", "crit", "error", "warning", "notice", "info", "debug", "trace" };
@@ -123,7 +123,8 @@ static void log_one(vprng_t *r)
 	int num = (int)vp_u(r, 2000000) - 1000000; unsigned long long big = vp_next(r);
 	x->t0_ms = now_ms_of_day(); cap_seen = 0;
 	char full[3000];
-	switch (vp_u(r, 6)) {
+	switch (vp_u(r, 7)) {
+	case 6: { const char *nofmt = vp_chance(r, 1, 2) ? "" : "%s"; qb_log_from_external_source(x->fn, "bb.c", nofmt, x->prio, x->line, x->tags, ""); full[0] = 0; n_empty_msgs++; break; }   /* the shortest records there are: an empty message */
 	case 0: qb_log_from_external_source(x->fn, "bb.c", "rec %d: %s", x->prio, x->line, x->tags, num, s1); snprintf(full, sizeof full, "rec %d: %s", num, s1); break;
 	case 1: qb_log_from_external_source(x->fn, "bb.c", "%s|%5d|%-8s|%llx", x->prio, x->line, x->tags, s1, num, "ab", big); snprintf(full, sizeof full, "%s|%5d|%-8s|%llx", s1, num, "ab", big); break;
 	case 2: qb_log_from_external_source(x->fn, "bb.c", "100%% of %d done %s", x->prio, x->line, x->tags, num, s1); snprintf(full, sizeof full, "100%% of %d done %s", num, s1); break;
@@ -370,7 +371,7 @@ int main(int argc, char **argv)
 	vp_count("records_logged", n_logged); vp_count("dumps_written_and_printed", n_dumps); vp_count("records_printed_and_compared", n_printed_records);
 	vp_count("dumps_that_had_wrapped", n_wrapped_dumps); vp_count("files_printed", n_files); vp_count("print_returned_ok", n_rc_ok); vp_count("print_returned_error", n_rc_err);
 	vp_count("truncations", n_truncs); vp_count("field_corruptions", n_field); vp_count("random_corruptions", n_random); vp_count("non_dumps", n_arbitrary);
-	vp_count("timestamps_compared_exactly", n_ts_exact); vp_count("timestamps_not_judged", n_ts_unjudged);
+	vp_count("records_with_an_empty_message", n_empty_msgs); vp_count("timestamps_compared_exactly", n_ts_exact); vp_count("timestamps_not_judged", n_ts_unjudged);
 	vp_count("private_dev_shm", private_shm);
 	vp_finish();
 	return 0;
